@@ -10,6 +10,7 @@ result dicts for the /verif framework.
 CLI:  python3 /verif/rx/run.py <group> [<group> ...] [--src DIR] [--pid P] [--filter S] [--seed N]
 
 Groups:  server (C01 C02 C03)   readdir (C03 C16)   init (C12)   vfs (C07 C14)
+         pt (C18 C15 C08 C16 C06 C05: the real PassthroughFs on a temporary directory)
 
 RX results are BOUNDED: status "ok" means "no mismatch inside the enumeration bound"
 (the bound is in the `bounded` field) and must never be counted as proved.
@@ -42,8 +43,9 @@ GROUPS = {
     "readdir": ["C03", "C16", "C01", "C02"],
     "init": ["C12", "C01", "C02", "C03"],
     "vfs": ["C07", "C14"],
+    "pt": ["C18", "C15", "C08", "C16", "C06", "C05"],
 }
-DEFAULT_PID = {"server": "C02", "readdir": "C03", "init": "C12", "vfs": "C07"}
+DEFAULT_PID = {"server": "C02", "readdir": "C03", "init": "C12", "vfs": "C07", "pt": "C18"}
 
 ASSUMPTIONS = {
     "server": [
@@ -66,6 +68,14 @@ ASSUMPTIONS = {
         "requests are issued as Server::handle_message does: id_remap_with_nodeid(ctx, header nodeid) and then the operation",
         "owner ids of pseudo directories are not judged",
     ],
+    "pt": [
+        "the exported directory lives on the file system of std::env::temp_dir() (ext4 in the sandbox): fallocate modes, d_off values and file handles are those of that file system",
+        "caller uid/gid 0, one thread; nothing but the harness changes the export while a scenario runs",
+        "scenario directories are reset to their layout (verified by kind, bytes, mode, owner, link count) and reused by later scenarios; the PassthroughFs instance is new for every scenario",
+        "C18: 'stays within the current size' = byte range inside [0, size) and not a truncating open/create or SIZE request; errno of a failing fallocate is not compared with the unsealed twin",
+        "C15: descriptors are counted in /proc/self/fd of the harness process; no descriptor-allocation faults (EMFILE) are injected",
+        "C06: hostile names and symlink targets that denote real system objects are only looked up, never given to a mutating request",
+    ],
 }
 
 # Rust function name (as carried by a VX failure) -> groups that exercise it
@@ -86,6 +96,19 @@ VFS_FNS = {
     "get_real_rootfs", "get_fs_by_idx", "convert_inode", "convert_entry", "convert_attr", "convert_backend_entry", "remap_attr_id",
     "remap_id", "get_effective_id_mapping", "allocate_fs_idx", "restore_mount",
 }
+# functions of src/passthrough reached by the pt group (PassthroughFs through the FileSystem trait)
+PT_FNS = {
+    "open_inode", "check_fd_flags", "skip_to_cookie", "last_cookie_in_buf", "consume_cached_cookie", "cache_cookie", "do_readdir", "do_open",
+    "do_getattr", "do_unlink", "get_dirdata", "get_data", "do_lookup", "forget_one", "do_release", "validate_path_component", "seal_size_check",
+    "get_writeback_open_flags", "allocate_inode", "import", "open_file_and_handle", "to_openable_handle", "create_file_excl", "reopen_fd_through_proc",
+    "is_safe_inode", "get", "release", "insert", "remove", "clear", "set_cookie", "remove_cookie", "get_alt", "get_alt_locked", "into_openable",
+    "lookup", "forget", "getattr", "setattr", "open", "create", "read", "write", "fallocate", "release", "opendir", "readdir", "readdirplus", "releasedir",
+    "mkdir", "mknod", "unlink", "rmdir", "rename", "symlink", "link", "readlink", "fsync", "destroy", "init",
+}
+PT_PIDS = ("C18", "C15", "C08", "C06", "C05")
+# filter (= label prefix of the pt scenarios) per property
+PT_FILTER = {"C18": "C18 ", "C15": "C15 ", "C08": "C08 ", "C16": "C16 ", "C06": "C06 ", "C05": "C05 "}
+
 # C07/C14 obligations of VX name the Vfs method; the same method names exist on the server side
 VFS_METHOD_FNS = {"lookup", "getattr", "setattr", "readdir", "readdirplus", "rename", "link", "mkdir", "forget", "create", "mknod", "symlink"}
 
@@ -362,6 +385,11 @@ def run_bounded(pid, groups, src, tier="full"):
             results.append(_tool_error(group, "rx %s ran no case or reported no bound (cases=%r)" % (group, data.get("cases")), wall, cmd))
             continue
         fails = [_failure_dict(f) for f in data["failures"] if f.get("property") == pid]
+        if not fails and int(data.get("tool_errors") or 0) > 0:
+            # scenarios the harness could not run (setup problem, panic): never "ok", never a failure
+            notes = [n for n in (data.get("notes") or []) if n.startswith("tool-error")]
+            results.append(_tool_error(group, "rx %s: %d scenario(s) could not be run: %s" % (group, data["tool_errors"], "; ".join(notes[:3])), wall, cmd))
+            continue
         total = int(data.get("failure_total") or len(fails))
         status = "fail" if fails else "ok"
         reason = ("%d mismatching executions for %s inside the bound (first %d shown)" % (total, pid, len(fails))) if fails else \
@@ -407,6 +435,12 @@ def groups_for(pid, failure):
                 cands.append(("readdir", None))
             if pid == "C12":
                 cands.append(("init", None))
+    if pid in GROUPS["pt"] and (pid in PT_PIDS or fn in PT_FNS or "passthrough" in (failure.get("file") or "") or "pt" in obl.split(".")[:1]):
+        # the pt scenarios are labelled by property, not by function: select the property's section
+        if pid == "C16":
+            cands.append(("pt", PT_FILTER.get(pid)))  # the wire encoding (readdir group) is the closer match for C16 functions
+        else:
+            cands.insert(0, ("pt", PT_FILTER.get(pid)))
     seen, out = set(), []
     for c in cands:
         if c not in seen and pid in GROUPS.get(c[0], []):
@@ -434,7 +468,7 @@ def search(pid, failure, src, seed=0):
 
 def main():
     ap = argparse.ArgumentParser(description=__doc__, formatter_class=argparse.RawDescriptionHelpFormatter)
-    ap.add_argument("groups", nargs="+", help="server | readdir | init | vfs")
+    ap.add_argument("groups", nargs="+", help="server | readdir | init | vfs | pt")
     ap.add_argument("--src", default="/repo", help="source root of fuse-backend-rs (checkout or a directory with src/)")
     ap.add_argument("--pid", default=None, help="property id; default: the main property of the group")
     ap.add_argument("--filter", default=None, help="passed to rx --filter (raw mode)")
